@@ -877,6 +877,7 @@ theorem step_suffices (cfg : Cfg) (s : StR) (e : EvR) (fuel : Nat) (hf : evBound
     · rename_i hsy; rw [if_neg hsy] at hf; exact key s (.makeS id ex h) hf
   | stubborn on => exact ⟨by simp [stepRWith, NoFuelOut], rfl⟩
   | syncMode sm => exact ⟨by simp [stepRWith, NoFuelOut], rfl⟩
+  | cancelMode k => exact ⟨by simp [stepRWith, NoFuelOut], rfl⟩
   | flat e =>
     cases e with
     | make id ex =>
